@@ -177,6 +177,18 @@ func c11Catalogue() []c11case {
 			var d S
 			return flat(z.Struct(z.Schema{"a": z.Int()}).Parse(zhttp.Request(c11Request("POST", "application/x-www-form-urlencoded", "a=%zz", "")), &d, o...))
 		}},
+		{"zhttp/ptr-root-invalid-json", "invalid_json", "struct", "", func(o ...z.ExecOption) []*z.ZogIssue {
+			var d *S
+			return flat(z.Ptr(z.Struct(z.Schema{"a": z.Int()})).Parse(zhttp.Request(c11Request("POST", "application/json", "{", "")), &d, o...))
+		}},
+		{"zhttp/ptr-root-invalid-form", "invalid_form", "struct", "", func(o ...z.ExecOption) []*z.ZogIssue {
+			var d *S
+			return flat(z.Ptr(z.Struct(z.Schema{"a": z.Int()})).Parse(zhttp.Request(c11Request("POST", "application/x-www-form-urlencoded", "a=%zz", "")), &d, o...))
+		}},
+		{"zjson/ptr-root-null", "invalid_json", "struct", "", func(o ...z.ExecOption) []*z.ZogIssue {
+			var d *S
+			return flat(z.Ptr(z.Struct(z.Schema{"a": z.Int()})).Parse(zjson.Decode(strings.NewReader("null")), &d, o...))
+		}},
 	}
 }
 
@@ -212,6 +224,14 @@ func C11_Run(job string) {
 		}
 		v.Assert(e.Message != "", "C11:empty-message")
 		v.Assert(!strings.Contains(e.Message, "{{"), "C11:unresolved-placeholder")
+		// the message is the one of the language map in force: exactly its template when the
+		// template has no placeholder
+		lm := map[string]zconst.LangMap{"en": en.Map, "es": es.Map}[b]
+		if lm != nil && c.dtype != "" {
+			if tmpl, ok := lm[zconst.ZogType(c.dtype)][c.code]; ok && !strings.Contains(tmpl, "{{") {
+				v.Assert(e.Message == tmpl, "C11:message-precedence")
+			}
+		}
 	case "multi-param":
 		// every {{placeholder}} of a message is substituted, whatever the order in which the
 		// params map is iterated (the engine permutes the range in the formatter)
